@@ -144,6 +144,14 @@ class Run(object):
     # ---- oracle on one accepted / rejected input
     def oracle(self, ent, kind, data, res, value=None):
         """independent checks of the property on the real result; returns True when it flagged"""
+        try:
+            return self._oracle(ent, kind, data, res, value)
+        except Exception as e:  # noqa - a defect of this harness must not look like a verdict on the code
+            self.ctx.disagree("harness-oracle", {"format": ent.name, "kind": kind, "bytes": bytes(data).hex()[:200]},
+                              "oracle", "%s: %s" % (type(e).__name__, e))
+            return False
+
+    def _oracle(self, ent, kind, data, res, value=None):
         ctx = self.ctx
         obj0 = res[3] if res[0] == "ok" else None
         cls = ent.cls
